@@ -434,7 +434,7 @@ def _jobs_for(prop, tier):
         return [j for j in jobs_option_below(tier) if j[1][3] == 'combinations'] + jobs_combinations(tier) + jobs_axis0(tier, 'combinations')
     if prop == 'C03':
         return jobs_c03(tier) + jobs_option_reduce(tier) + jobs_axis(tier, ('reduce',)) + jobs_reduce_nonlocal(tier)
-    return {'C02': jobs_c02, 'C03': jobs_c03, 'C04': jobs_c04, 'C06': (lambda t: jobs_c06(t) + jobs_axis(t, ('sort', 'argsort')) + jobs_numpy_sort(t) + jobs_sort_nonlocal(t) + jobs_option_sort(t) + jobs_option_sort_above(t) + jobs_option_argsort(t)), 'C08': (lambda t: jobs_c08(t) + jobs_numpy(t) + jobs_union(t) + jobs_reverse_merge(t) + jobs_record_merge(t) + jobs_list_merge(t) + [j for j in jobs_record_named(t) if j[0] is h_record_mergemany_named] + jobs_merge_union(t) + jobs_union_ops(t)), 'C17': (lambda t: jobs_c17(t) + jobs_record_keys(t)), 'C12': jobs_numpy, 'C10': (lambda t: jobs_c10(t) + [j for j in jobs_record_named(t) if j[0] is h_record_field_key] + jobs_project(t) + [j for j in jobs_option_below(t) if j[1][3] == 'getitem_field'] + jobs_record_setitem(t)), 'C05': jobs_c05, 'C09': jobs_c09}.get(prop, lambda t: [])(tier)
+    return {'C02': jobs_c02, 'C03': jobs_c03, 'C04': jobs_c04, 'C06': (lambda t: jobs_c06(t) + jobs_axis(t, ('sort', 'argsort')) + jobs_numpy_sort(t) + jobs_sort_nonlocal(t) + jobs_option_sort(t) + jobs_option_sort_above(t) + jobs_option_argsort(t) + jobs_string_argsort(t)), 'C08': (lambda t: jobs_c08(t) + jobs_numpy(t) + jobs_union(t) + jobs_reverse_merge(t) + jobs_record_merge(t) + jobs_list_merge(t) + [j for j in jobs_record_named(t) if j[0] is h_record_mergemany_named] + jobs_merge_union(t) + jobs_union_ops(t)), 'C17': (lambda t: jobs_c17(t) + jobs_record_keys(t)), 'C12': jobs_numpy, 'C10': (lambda t: jobs_c10(t) + [j for j in jobs_record_named(t) if j[0] is h_record_field_key] + jobs_project(t) + [j for j in jobs_option_below(t) if j[1][3] == 'getitem_field'] + jobs_record_setitem(t)), 'C05': jobs_c05, 'C09': jobs_c09}.get(prop, lambda t: [])(tier)
 
 
 # ------------------------------------------------------------------------------------------------ C01: getitem_next of list nodes
@@ -5381,3 +5381,122 @@ def jobs_option_argsort(tier):
     if tier != 'quick':
         q += [((0, 1, 1, 0, 1), (0, 0, 1, 1, 1)), ((1,), (0,)), ((0, 1, 0, 1), (0, 1, 1, 2)), ((0, 0, 0), (0, 0, 0)), ((1, 1, 0), (0, 1, 1)), ((1, 0, 1), (0, 2, 2))]
     return [(h_option_argsort, a, 1800) for a in q]
+
+
+# ------------------------------------------------------------------------------------------------ C06: argsort of strings with missing values taken out
+@guard
+def h_string_argsort(pattern, parents_c):
+    """ListOffsetArray64::argsort_next on a list of strings (the branch taken for __array__ = "string"), called the way an option node above it
+    calls it: with only the valid strings, their groups, and for each of them the number of missing values before it (shifts).  Whatever order the
+    string kernel answers (stubbed: arbitrary positions inside each group), the positions returned count the missing values too: position p of
+    group g in the valid-only numbering becomes p + (missing values before that string) - (start of the group) in the full numbering"""
+    pattern = tuple(map(bool, pattern))
+    parents_c = list(parents_c)
+    n = len(pattern)
+    valid = [i for i, m_ in enumerate(pattern) if not m_]
+    nv = len(valid)
+    G = max(parents_c) + 1 if parents_c else 1
+    nextparents = [parents_c[i] for i in valid]
+    shifts_c = [sum(1 for j in range(i) if pattern[j]) for i in valid]
+    starts_c = [sum(1 for p in parents_c if p < g) for g in range(G)]
+    vstart = [sum(1 for p in nextparents if p < g) for g in range(G)]
+    vsize = [sum(1 for p in nextparents if p == g) for g in range(G)]
+    nc = NodeCtx(['LOA', 'NA', 'RA', 'IDX', 'CNT', 'UTL', 'KD', 'IDS'], [], unwind=max(14, 4 * n + 12))
+    chars, xs, fo_ = build_numpy1d(nc, 'chars', nv, 'uint8')
+    nc.content0, nc.lencontent = chars, BV(nv)
+    this, lists, offs = build_listoffset64(nc, [1] * nv)
+    P = [nc.m.bv('answer%d' % k) for k in range(nv)]
+    for k in range(nv):
+        nc.m.assume(P[k] >= 0, P[k] < vsize[nextparents[k]])
+    seen = []
+
+    def s_kernel(eng, fr, ins, st, name, argv):
+        if len(argv) != 10:
+            raise Unsupported('argsort_strings called with %d arguments' % len(argv))
+        sret, tocarry, parents_, length, data, sstarts, sstops, stable_, asc_, local_ = argv
+        seen.append(dict(pc=st.pc, length=length, local=local_, asc=asc_, stable=stable_))
+        rec = st.mem.o[sret.obj]
+        for off, (v, w) in {0: (NULL, 8), 8: (NULL, 8), 16: (BV(2 ** 63 - 1), 8), 24: (BV(2 ** 63 - 1), 8), 32: (BV(0, 8), 1)}.items():
+            rec.cells[sret.off + off] = (v, w)
+        for k in range(nv):
+            eng.store(st, Ptr(tocarry.obj, tocarry.off + k), P[k], 'i64', fr.mod, 'stub of awkward_ListOffsetArray_argsort_strings')
+        return None
+    nc.m.eng.stubs['awkward_ListOffsetArray_argsort_strings'] = s_kernel
+    # the node is a list of strings: parameter_equals("__array__", "\"string\"") holds, and it is valid
+    nc.m.eng.stubs['_ZNK7awkward7Content16parameter_equalsERKNSt7__cxx1112basic_stringIcSt11char_traitsIcESaIcEEES8_'] = lambda eng, fr, ins, st, name, argv: z3.BitVecVal(1, 1)
+    nc.m.eng.stubs['_ZNK7awkward17ListOffsetArrayOfIlE13validityerrorE*'] = nodeh.s_empty_string
+    nc.m.eng.stubs['vf$slot%d' % nc.slot('12branch_depthEv')] = lambda eng, fr, ins, st, name, argv: [z3.BitVecVal(0, 8), BV(1)]
+    nc.m.eng.stubs.update(string_stubs(nc))
+
+    def index64(name, vals):
+        arr = z3.K(z3.BitVecSort(64), BV(0))
+        for i, v in enumerate(vals):
+            arr = z3.Store(arr, BV(i), BV(v))
+        d = nc.m.array(name + '_data', ('i', 64), max(1, len(vals)), const=True, arr=arr)
+        cells = {}
+        nc.index_cells(cells, 0, d, BV(0), BV(len(vals)))
+        return nc.m.record(name, cells, const=True)
+    parents, starts, shifts = index64('parents', nextparents), index64('starts', starts_c), index64('shifts', shifts_c)
+    asc, stb = nc.m.bv('ascending', 1), nc.m.bv('stable', 1)
+    nc.m.record('ret', {})
+    cands = [f for mod_ in nc.m.eng.mods for f in mod_.func_src if f.startswith('_ZNK7awkward17ListOffsetArrayOfIlE12argsort_nextEl')]
+    out = nc.m.call(cands[0], [Ptr('ret', 0), this, BV(1), starts, shifts, parents, BV(G), asc, stb])
+    obls = [('argsort_next does not raise', out.raised)] + ([('the string kernel is asked', z3.Not(z3.Or([ob['pc'] for ob in seen] + [z3.BoolVal(False)])))] if nv else [])
+    for ob in seen:
+        loc = ob['local'] if ob['local'].size() == 1 else z3.Extract(0, 0, ob['local'])
+        obls.append(('the kernel is asked for positions inside each group, for every valid string', z3.And(ob['pc'], z3.Or(loc != 1, ob['length'] != nv))))
+
+    def sel(vals, i):
+        t = BV(-99)
+        for j, v in enumerate(vals):
+            t = z3.If(i == j, BV(v), t)
+        return t
+    want = []
+    for k in range(nv):
+        g = nextparents[k]
+        gpos = P[k] + vstart[g]
+        want.append(Elem(z3.simplify(gpos + sel(shifts_c, gpos) - starts_c[g])))
+    for g, res in nodeh.decode_cases(nc, out.mem, nc.m.cell('ret', 0)):
+        if res is None:
+            obls.append(('a result is returned', z3.And(g, z3.Not(out.raised))))
+        else:
+            # also without any string: the caller merges the answer with the positions of the missing values, which needs an array of positions
+            obls.append(('the answer is a one-dimensional array of positions', z3.And(g, z3.BoolVal(res['cls'] != 'numpy'))))
+            obls += [(nm, z3.And(g, c)) for nm, c in nodeh.compare_value(res, want)]
+
+    def replay(model, ent):
+        # strings 'a', 'b', ... in decreasing order inside every group (so that the sorted order differs from the input order), None where the pattern says
+        counts = [sum(1 for p in parents_c if p == gi) for gi in range(G)]
+        oo, acc = [0], 0
+        for c in counts:
+            acc += c; oo.append(acc)
+        words = [chr(ord('z') - k) * (1 + k % 2) for k in range(nv)]
+        idx, k = [], 0
+        for i in range(n):
+            if pattern[i]:
+                idx.append(-1)
+            else:
+                idx.append(k); k += 1
+        b = [ord(c) for w in words for c in w]
+        wo = [0]
+        for w in words:
+            wo.append(wo[-1] + len(w))
+        entries = [None if v < 0 else words[v] for v in idx]
+        prog = 'u8 %s param __array__ "char" listoffset64 %s param __array__ "string" option64 %s listoffset64 %s argsort 1 1 1' % (fullnative.ints(b), fullnative.ints(wo), fullnative.ints(idx), fullnative.ints(oo))
+        exp = []
+        for gi in range(G):
+            grp = entries[oo[gi]:oo[gi + 1]]
+            pres = sorted([j for j in range(len(grp)) if grp[j] is not None], key=lambda j: (grp[j].encode(), j))
+            exp.append(pres + [j for j in range(len(grp)) if grp[j] is None])
+        return akrun_check(prog, exp, 'argsort(axis=1) of lists %s of option-type strings %s' % (counts, entries))
+    return mdischarge(nc.m, 'ListOffsetArray64(string)::argsort_next with shifts pattern=%s groups=%s' % (''.join('N' if p else 'v' for p in pattern), parents_c), obls,
+                      [('a string with a missing value before it', z3.BoolVal(any(shifts_c)))] if any(shifts_c) else [], replay=replay,
+                      extra=dict(bounds='%d entries (%d valid strings), missing pattern and groups concrete (case split); the answer of the string kernel symbolic; string kernel and parameter lookup stubbed' % (n, nv)))
+
+
+def jobs_string_argsort(tier):
+    q = [((0, 1, 0), (0, 0, 0)), ((1, 0, 0, 1, 0), (0, 0, 1, 1, 1))]
+    if tier != 'quick':
+        q += [((0, 0), (0, 1)), ((1, 0), (0, 0)), ((0, 1, 1, 0, 0), (0, 0, 0, 0, 1)), ((1, 0, 1, 0), (0, 1, 2, 2)), ((0, 0, 0), (0, 0, 0)), ((1,), (0,))]
+    q += [((1, 1), (0, 0))]
+    return [(h_string_argsort, a, 1800) for a in q]
